@@ -575,6 +575,14 @@ type request struct {
 	attr, level    uint32
 	chess          uint32
 	isGroup        bool
+	auto           bool // ptttype.DEFAULT_AUTOCPLOG while the request is served
+}
+
+func b01(b bool) string {
+	if b {
+		return "1"
+	}
+	return "0"
 }
 
 func (q *request) line() string {
@@ -586,15 +594,15 @@ func (q *request) line() string {
 	if q.isGroup {
 		g = "1"
 	}
-	return fmt.Sprintf("create %s %d %d %d %s %s %s %s %d %d %d %s", hx.Hex(q.user), q.ulevel, q.uid, q.cls, hx.Hex(q.name),
-		hx.Hex(q.bclass), hx.Hex(q.btitle), bms, q.attr, q.level, q.chess, g)
+	return fmt.Sprintf("create %s %d %d %d %s %s %s %s %d %d %d %s %s", hx.Hex(q.user), q.ulevel, q.uid, q.cls, hx.Hex(q.name),
+		hx.Hex(q.bclass), hx.Hex(q.btitle), bms, q.attr, q.level, q.chess, g, b01(q.auto))
 }
 
 func parseReq(ws []string) (*request, bool) {
-	if len(ws) != 12 {
+	if len(ws) != 13 || (ws[12] != "0" && ws[12] != "1") {
 		return nil, false
 	}
-	q := &request{}
+	q := &request{auto: ws[12] == "1"}
 	var ok [11]bool
 	q.user, ok[0] = parseBytes(ws[0], 13)
 	q.ulevel, ok[1] = parseU32(ws[1])
@@ -633,6 +641,7 @@ type bbsArgs struct {
 	attr, level    uint32
 	chess          uint32
 	isGroup        bool
+	auto           bool
 }
 
 func (a *bbsArgs) line() string {
@@ -640,15 +649,15 @@ func (a *bbsArgs) line() string {
 	if a.isGroup {
 		g = "1"
 	}
-	return fmt.Sprintf("bcreate %s %d %s %s %s %s %d %d %d %s", hx.Hex(a.userID), a.cls, hx.Hex(a.name), hx.Hex(a.bclass),
-		hx.Hex(a.btitle), csvBytes(a.bms), a.attr, a.level, a.chess, g)
+	return fmt.Sprintf("bcreate %s %d %s %s %s %s %d %d %d %s %s", hx.Hex(a.userID), a.cls, hx.Hex(a.name), hx.Hex(a.bclass),
+		hx.Hex(a.btitle), csvBytes(a.bms), a.attr, a.level, a.chess, g, b01(a.auto))
 }
 
 func parseBbs(ws []string) (*bbsArgs, bool) {
-	if len(ws) != 10 {
+	if len(ws) != 11 || (ws[10] != "0" && ws[10] != "1") {
 		return nil, false
 	}
-	a := &bbsArgs{}
+	a := &bbsArgs{auto: ws[10] == "1"}
 	var ok [9]bool
 	a.userID, ok[0] = parseBytes(ws[0], 32)
 	a.cls, ok[1] = parseI32(ws[1])
@@ -748,11 +757,14 @@ func exec(i int, line string) (out, label string, nontrivial bool) {
 		}
 		var sum *bbs.BoardSummary
 		var err error
+		saved := ptttype.DEFAULT_AUTOCPLOG
+		ptttype.DEFAULT_AUTOCPLOG = a.auto
 		o := hx.CallT(8*time.Second, func() string {
 			sum, err = bbs.CreateBoard(bbs.UUserID(string(a.userID)), ptttype.Bid(a.cls), string(a.name), a.bclass, a.btitle, bms,
 				ptttype.BrdAttr(a.attr), ptttype.PERM(a.level), ptttype.ChessCode(a.chess), a.isGroup)
 			return ""
 		})
+		ptttype.DEFAULT_AUTOCPLOG = saved
 		res := o
 		slot := -1
 		switch {
@@ -793,11 +805,14 @@ func exec(i int, line string) (out, label string, nontrivial bool) {
 		}
 		var sum *ptttype.BoardSummaryRaw
 		var err error
+		saved := ptttype.DEFAULT_AUTOCPLOG
+		ptttype.DEFAULT_AUTOCPLOG = q.auto
 		o := hx.CallT(8*time.Second, func() string {
 			sum, err = ptt.NewBoard(user, ptttype.UID(q.uid), ptttype.Bid(q.cls), name, q.bclass, q.btitle, bms,
 				ptttype.BrdAttr(q.attr), ptttype.PERM(q.level), ptttype.ChessCode(q.chess), q.isGroup)
 			return ""
 		})
+		ptttype.DEFAULT_AUTOCPLOG = saved
 		res := o
 		slot := -1
 		switch {
